@@ -15,3 +15,14 @@ func NewKafkaWriterForVerif(write func([]kafka.Message)) *KafkaWriter {
 	w.writeFunction = func(m []kafka.Message, _ *monitoring.Metric) { write(m) }
 	return w
 }
+
+// WriterFactoryForVerif, when set, builds the writers the core creates on the first use of a topic
+// (call sites of NewWriterWithTopic are routed through NewWriterWithTopicForVerifHook by the rewriter).
+var WriterFactoryForVerif func(topic.Topic) *KafkaWriter
+
+func NewWriterWithTopicForVerifHook(t topic.Topic) *KafkaWriter {
+	if WriterFactoryForVerif != nil {
+		return WriterFactoryForVerif(t)
+	}
+	return NewWriterWithTopic(t)
+}
